@@ -74,6 +74,8 @@ def make_meta(spec: dict) -> dict:
         model["non-persistent"] = [a for a, k in outs.items() if k == "nonpersistent"]
     if "meta_override" in spec:
         model.update(spec["meta_override"])
+    if "model_desc" in spec:          # C12: mirror a complete model description
+        model = dict(spec["model_desc"])
     meta: Dict[str, Any] = {
         "api_version": spec.get("api_version", "3.0"),
         "type": typ,
